@@ -167,8 +167,9 @@ def side_case(seed):
             if es[1] > es[0] + tol or es[2] > es[1] + tol:
                 return ('more sweeps made the energy-norm error larger: %s' % (es,)), dict(desc, tags=dict(tags, clause='monotone'))
         elif clause == 'graded':
-            # a solution with a graded singular spectrum (1, 1e-4, 1e-8 on its bonds): with maximal ranks one sweep is exact to
-            # rounding, small singular directions included (the default relative cut of mals is 1e-12)
+            # a solution with a graded singular spectrum (1, 1e-2, 1e-4 on its bonds): with maximal ranks one sweep is exact to
+            # rounding, small singular directions included, for a relative cut of 1e-6.  The guess is right-orthonormal, so that
+            # the local singular values mals cuts on are those of the solution (frames orthonormal on both sides)
             nrng = np.random.default_rng(rng.getrandbits(32))
             xg = np.zeros(dims, dtype=complex if cplx else float)
             for k_ in range(3):
@@ -176,11 +177,15 @@ def side_case(seed):
                 for i_, d_ in enumerate(dims):
                     v_ = nrng.standard_normal(d_) + (1j * nrng.standard_normal(d_) if cplx else 0)
                     term = term * v_.reshape([d_ if j_ == i_ else 1 for j_ in range(order)])
-                xg = xg + (1e-4 ** k_) * term / np.linalg.norm(term)
+                xg = xg + (1e-2 ** k_) * term / np.linalg.norm(term)
+            for k_ in range(1, order):       # the cut must be clear of every singular-value ratio of the solution
+                sv_ = np.linalg.svd(xg.reshape(int(np.prod(dims[:k_])), -1), compute_uv=False)
+                if any(1e-10 < v_ / sv_[0] < 1e-5 for v_ in sv_):
+                    return None, dict(desc, skipped='singular value of the graded solution too close to the cut')
             xg = xg.reshape(-1)
             bg = TT((Am @ xg).reshape(dims + [1] * order))
-            g = gen_tt(rng, dims, [1] * order, max_ranks(dims), cplx, 'float')
-            s = sle.als(A, g, bg, repeats=1, solver=solver) if which == 'als' else sle.mals(A, g, bg, repeats=1, solver=solver)
+            g = gen_tt(rng, dims, [1] * order, max_ranks(dims), cplx, 'float').ortho_right()
+            s = sle.als(A, g, bg, repeats=1, solver=solver) if which == 'als' else sle.mals(A, g, bg, repeats=1, solver=solver, threshold=1e-6)
             err = float(np.linalg.norm(dense(s.cores).reshape(-1) - xg)) / float(np.linalg.norm(xg))
             cond = float(np.linalg.cond(Am))
             if err > 1e-10 * max(1.0, cond / 100):
